@@ -1362,6 +1362,10 @@ def model(ex, st, c, args):
         pat = D(args[1])
         if isinstance(pat, Int):
             pat = SStr([pat])
+        if isinstance(pat, (Closure, FnItem)):
+            if not s.items:
+                return z3.BoolVal(False)
+            return call_value(ex, st, pat, [s.items[0] if c.endswith('starts_with') else s.items[-1]])
         if not isinstance(pat, SStr):
             raise Unsupported('starts_with pattern %r' % (pat,))
         n = len(pat.items)
